@@ -328,6 +328,17 @@ func Tty(t *rapid.T, user bool) kenc.Rec {
 // SERVICE_START, …) with a msg='…' payload.
 func UserRecord(t *rapid.T, typ uint16) kenc.Rec {
 	o := ValOpts{NoSingleQuote: true, SafeOnly: true, MaxLen: 12}
+	if (typ == CRED_DISP || typ == USER_START || typ == USER_END) && rapid.Bool().Draw(t, "oldpam") {
+		// the form pam wrote up to RHEL 6, which the parser unwraps for exactly these three record types
+		host, addr := pick(t, "oldhost", "?", "host1"), pick(t, "oldaddr", "?", "10.0.0.1")
+		return kenc.Rec{Type: typ,
+			Fields: []kenc.F{kenc.T("user"), kenc.P("pid", Num(t, "pid", 99999)), kenc.P("uid", ID(t, "uid")), kenc.P("auid", ID(t, "auid")), kenc.P("ses", ID(t, "ses"))},
+			User: []kenc.F{kenc.T("PAM: " + pick(t, "pamop", "session open", "session close", "setcred")), kenc.Q("acct", string(Val(t, "acct", o))), kenc.T(":"),
+				kenc.Q("exe", "/usr/sbin/"+string(Val(t, "uexe", ValOpts{SafeOnly: true, NoSingleQuote: true, MaxLen: 8}))),
+				kenc.T("(hostname=" + host + ","), kenc.T("addr=" + addr + ","), kenc.P("terminal", pick(t, "terminal", "cron", "ssh", "/dev/pts/0")),
+				kenc.P("res", pick(t, "res", "success", "failed"))},
+			UserClose: ")'"}
+	}
 	return kenc.Rec{Type: typ,
 		Fields: []kenc.F{kenc.P("pid", Num(t, "pid", 99999)), kenc.P("uid", ID(t, "uid")), kenc.P("auid", ID(t, "auid")), kenc.P("ses", ID(t, "ses"))},
 		User: []kenc.F{kenc.P("op", pick(t, "op", "PAM:authentication", "login", "start")), kenc.Q("acct", string(Val(t, "acct", o))),
